@@ -140,6 +140,58 @@ def _patch_lock_factories():
 # --------------------------------------------------------------------------
 # binding to the tree under test (done once in the template, before forking)
 # --------------------------------------------------------------------------
+_TIME_SEAM_INSTALLED = False
+
+
+def _install_time_seam():
+    """time.time / monotonic / perf_counter (and their _ns forms) follow the
+    simulated clock while a client is inside a library operation; everywhere
+    else (coordinator, node bookkeeping, outside operations) they stay real.
+    Installed in the template before the library is imported, so that
+    `from time import monotonic` in library code binds the seam too.  The pinned
+    tree never reads these clocks: the seam exists for code that starts to."""
+    global _TIME_SEAM_INSTALLED
+    if _TIME_SEAM_INSTALLED:
+        return
+    import time as _t
+
+    def active():
+        sim = CURRENT
+        if sim is not None:
+            cl = sim.cur
+            if cl is not None and cl.in_op and cl.tid == _thread.get_ident():
+                return sim
+        return None
+
+    def wall(sim):
+        sim.clock.reads += 1
+        return sim.clock.now(sim.gstep)
+
+    def mono(sim):
+        sim.clock.reads += 1
+        c = sim.clock
+        v = 1000.0 + max(0.0, c.jumped) + (0 if c.frozen else sim.gstep * STEP_SECONDS)
+        c.mono_max = v = max(c.mono_max, v)  # never runs backwards
+        return v
+
+    def mk(real, fn, ns):
+        def seam():
+            sim = active()
+            if sim is None:
+                return real()
+            x = fn(sim)
+            return int(x * 1e9) if ns else x
+
+        seam.__name__ = real.__name__
+        seam.__wrapped__ = real
+        return seam
+
+    for name, fn in (("time", wall), ("monotonic", mono), ("perf_counter", mono)):
+        setattr(_t, name, mk(getattr(_t, name), fn, False))
+        setattr(_t, name + "_ns", mk(getattr(_t, name + "_ns"), fn, True))
+    _TIME_SEAM_INSTALLED = True
+
+
 class T:
     bound = False
 
@@ -172,6 +224,7 @@ def bind(repo):
     import igraph  # noqa: F401
 
     _patch_lock_factories()
+    _install_time_seam()
     import tucan
     import tucan.io
     import tucan.io.molfile_reader
@@ -458,6 +511,7 @@ class _Clock:
         self.jumped = 0.0
         self.frozen = False
         self.reads = 0
+        self.mono_max = 0.0
 
     def now(self, gstep):
         t = self.start + self.jumped + (0 if self.frozen else gstep * STEP_SECONDS)
@@ -651,6 +705,7 @@ class Client:
         self.site = "-"
         self.func = "-"
         self.shared = False
+        self.tid = None
         self.shared_regs = {}  # op index -> share name: registers holding an object other clients hold too
 
 
@@ -922,6 +977,7 @@ def _antlr_fingerprint():
 
 
 def _call(sim, cl, fn, *a, **kw):
+    cl.tid = _thread.get_ident()
     cl.in_op = True
     try:
         return fn(*a, **kw)
